@@ -124,7 +124,7 @@ def run(tier, seed, jobs=None):
             for nm in res.pop('__history__', []):
                 key = 'history:earlier-reads-change-later-results'
                 vcount[key] = vcount.get(key, 0) + 1
-                V.append((key, f'{nm}: after removing a lexicon and adding another one in the same process, the reads '
+                V.append((key, f'{nm}: after the database changed (lexicons removed and/or added) in the same process, the reads '
                           f'differ from those of a process that had not read before (PYTHONHASHSEED={sd})',
                           {'item': nm, 'seed': sd}, None))
         # cross-process stage
